@@ -246,9 +246,21 @@ public:
 	template<class T>
 	File& operator<<(const T& x)
 	{
+		return put_(x, &x);
+	}
+
+	template<class T>
+	File& put_(const T& x, const void*) // a plain value: its bytes
+	{
 		T y = (_endian == ASL_OTHER_ENDIAN) ? bytesSwapped(x) : x;
 		write(&y, sizeof(x));
 		return *this;
+	}
+
+	template<class T, class K>
+	File& put_(const T&, const Array<K>* a) // an object derived from Array (Stack, Queue, StreamBuffer): its items, not the handle
+	{
+		return *this << *a;
 	}
 
 	/**
@@ -257,10 +269,22 @@ public:
 	template<class T>
 	File& operator>>(T& x)
 	{
+		return get_(x, &x);
+	}
+
+	template<class T>
+	File& get_(T& x, void*)
+	{
 		read(&x, sizeof(x));
 		if (_endian == ASL_OTHER_ENDIAN)
 			swapBytes(x);
 		return *this;
+	}
+
+	template<class T, class K>
+	File& get_(T&, Array<K>* a)
+	{
+		return *this >> *a;
 	}
 
 	File& operator>>(char& x)
